@@ -85,7 +85,7 @@ func ruleW1(c *Ctx) {
 		return true
 	})
 	sort.Strings(gets)
-	c.check(strings.Join(gets, ",") == "h.Val.Get,msg.PV.GetCallID().CallID.Get,msg.PV.GetFrom().Tag.Get", "W1", "byte-sources", fd.Pos(),
+	c.check(len(gets) == 3 && patInAll(strings.Join(gets, " , "), "@h.Val.Get", "@m.PV.GetCallID().CallID.Get", "@m.PV.GetFrom().Tag.Get"), "W1", "byte-sources", fd.Pos(),
 		fmt.Sprintf("message bytes enter the signature only through Call-ID, From-tag and a header value (got %v)", gets))
 }
 
@@ -108,7 +108,7 @@ func ruleW2(c *Ctx) {
 		}
 	}
 	okReq := false
-	if firstIf != nil && strings.Contains(c.src(firstIf.Cond), "!msg.Request()") {
+	if firstIf != nil && patIn(c.src(firstIf.Cond), "!@m.Request()") {
 		if r, ok := firstIf.Body.List[0].(*ast.ReturnStmt); ok && len(r.Results) == 2 && c.constName(r.Results[1]) == "ErrHdrEmpty" {
 			okReq = true
 		}
@@ -126,12 +126,12 @@ func ruleW2(c *Ctx) {
 		c.fail("W2", "loop", fd.Pos(), "header walk not found")
 		return
 	}
-	c.check(c.src(loop.X) == "msg.HL.Hdrs", "W2", "walk", loop.Pos(), "the walk ranges over the stored headers in message order")
+	c.check(patEq(c.src(loop.X), "@m.HL.Hdrs"), "W2", "walk", loop.Pos(), "the walk ranges over the stored headers in message order")
 	h := c.src(loop.Value)
 	okFirst := false
 	if len(loop.Body.List) == 1 {
-		if is, ok := loop.Body.List[0].(*ast.IfStmt); ok && c.src(is.Cond) == "!seen.Test("+h+".Type)" && is.Else == nil {
-			if es, ok := is.Body.List[0].(*ast.ExprStmt); ok && c.src(es.X) == "seen.Set("+h+".Type)" {
+		if is, ok := loop.Body.List[0].(*ast.IfStmt); ok && is.Else == nil {
+			if es, ok := is.Body.List[0].(*ast.ExprStmt); ok && patInAll(c.src(is.Cond)+" ; "+c.src(es.X), "!@s.Test("+h+".Type) ;", "; @s.Set("+h+".Type)") {
 				okFirst = true
 			}
 		}
@@ -140,19 +140,19 @@ func ruleW2(c *Ctx) {
 	body := c.src(loop.Body)
 	viaOnly := strings.Count(body, h+".Val") == 1
 	ast.Inspect(loop.Body, func(n ast.Node) bool {
-		if is, ok := n.(*ast.IfStmt); ok && strings.Contains(c.src(is.Body), h+".Val") && !strings.Contains(c.src(is.Cond), "seen.") {
-			if c.src(is.Cond) != h+".Type == HdrVia" || !strings.Contains(c.src(is.Body), "GetViaBrSig("+h+".Val.Get(msg.Buf))") {
+		if is, ok := n.(*ast.IfStmt); ok && strings.Contains(c.src(is.Body), h+".Val") && !strings.Contains(c.src(is.Cond), ".Test(") {
+			if c.src(is.Cond) != h+".Type == HdrVia" || !patIn(c.src(is.Body), "GetViaBrSig("+h+".Val.Get(@m.Buf))") {
 				viaOnly = false
 			}
 		}
 		return true
 	})
 	c.check(viaOnly, "W2", "via-only", loop.Pos(), "a header value is read exactly once, under the test type == HdrVia, and only to extract the branch signature")
-	c.check(strings.Contains(strings.ReplaceAll(body, " ", ""), h+".Type!=HdrContact||sig.Method==MInvite"), "W3", "contact-invite", loop.Pos(), "Contact contributes only when the method is INVITE")
-	c.check(strings.Contains(body, "if sig.HdrSigLen >= len(sig.HdrSig) { return sig, ErrHdrOk }"), "W3", "eight-entries", loop.Pos(), "at most len(HdrSig) entries are produced (early return)")
+	c.check(patIn(body, h+".Type != HdrContact || @g.Method == MInvite"), "W3", "contact-invite", loop.Pos(), "Contact contributes only when the method is INVITE")
+	c.check(patIn(body, "if @g.HdrSigLen >= len(@g.HdrSig) { return @g, ErrHdrOk }"), "W3", "eight-entries", loop.Pos(), "at most len(HdrSig) entries are produced (early return)")
 	// truncation indicator
 	tail := c.src(fd.Body)
-	c.check(strings.Contains(tail, "if msg.HL.N > len(msg.HL.Hdrs) {") && strings.Contains(tail, "return sig, ErrHdrTrunc"), "W3", "trunc", fd.Pos(), "a header array too small for the message yields ErrHdrTrunc unless every fingerprinted type was already seen")
+	c.check(patIn(tail, "if @m.HL.N > len(@m.HL.Hdrs) {") && patIn(tail, "return @g, ErrHdrTrunc"), "W3", "trunc", fd.Pos(), "a header array too small for the message yields ErrHdrTrunc unless every fingerprinted type was already seen")
 }
 
 func ruleW3(c *Ctx) {
@@ -182,12 +182,12 @@ func ruleW3(c *Ctx) {
 	// compact bit iff Name.Len == 1
 	if fd := c.Decls["GetHdrSigId"]; fd != nil {
 		s := c.src(fd.Body)
-		c.check(strings.Contains(s, "if h.Name.Len == 1 { return HdrSigIdCMask | s, ErrHdrOk }"), "W3", "compact-bit", fd.Pos(), "the compact bit is set iff the header name has length 1")
+		c.check(patIn(s, "if @h.Name.Len == 1 { return HdrSigIdCMask | @s, ErrHdrOk }"), "W3", "compact-bit", fd.Pos(), "the compact bit is set iff the header name has length 1")
 	}
 	// init fills hdr2SigId from sigHdrs and sigHdrsFlags from the same table
 	if fd := c.Decls["init@msg_sig.go"]; fd != nil {
 		s := c.src(fd.Body)
-		c.check(strings.Contains(s, "range sigHdrs") && strings.Contains(s, "sigHdrsFlags.Set(s)") && strings.Contains(s, "hdr2SigId[t] = HdrSigId(i)"), "W3", "init-tables", fd.Pos(), "id table and flag set are both derived from sigHdrs at init")
+		c.check(patIn(s, "range sigHdrs") && patIn(s, "sigHdrsFlags.Set(@s)") && patIn(s, "hdr2SigId[@t] = HdrSigId(@i)"), "W3", "init-tables", fd.Pos(), "id table and flag set are both derived from sigHdrs at init")
 	}
 }
 
@@ -219,8 +219,8 @@ func ruleW6(c *Ctx) {
 	}
 	c.check(flagsVal == want, "W6", "flags", fd.Pos(), "Via parameters are parsed with exactly {semicolon separator, comma terminator, input end}")
 	s := c.src(fd.Body)
-	c.check(strings.Contains(s, "param.Name.Len == 6") && strings.Contains(s, `bytescase.CmpEq(name, []byte("branch"))`), "W6", "branch-name", fd.Pos(), "the branch parameter is found by length 6 and case-insensitive name")
-	c.check(strings.Contains(s, `bytescase.CmpEq(val[:len(brPrefix)], []byte(brPrefix))`) && strings.Contains(s, "len(val) > len(brPrefix)"), "W6", "magic-prefix", fd.Pos(), "the RFC 3261 magic prefix is skipped only when the value is longer than it")
+	c.check(patIn(s, "@p.Name.Len == 6") && patIn(s, `bytescase.CmpEq(@n, []byte("branch"))`), "W6", "branch-name", fd.Pos(), "the branch parameter is found by length 6 and case-insensitive name")
+	c.check(patIn(s, `bytescase.CmpEq(@v[:len(@x)], []byte(@x))`) && patIn(s, "len(@v) > len(@x)"), "W6", "magic-prefix", fd.Pos(), "the RFC 3261 magic prefix is skipped only when the value is longer than it")
 	ruleGFor(c, "W6", map[string]bool{"GetViaBrSig": true})
 }
 
